@@ -16,7 +16,10 @@ LEVEL = "exploration"
 RULE = ("Hypothesis draws sample sets over d 2..4(5) modes with 1..4(5) index values per mode: full grids (also balanced repeats, "
         "unbalanced extra rows), sparse random subsets (observed domain may be smaller than the nominal one), duplicates with "
         "different values, single samples, tiny fully explicit sets; index values relabelled (identity, 2i+3, drawn distinct "
-        "integers incl. negative, unsorted); y families gauss/smallint/const/zero/explicit, scale 10^{0,+-3}; ranks r 2..5,12,50; "
+        "integers incl. negative, unsorted; family `big`: per mode small labels or base + offsets with |base| from 65520 to 2^63-16, "
+        "both signs, contiguous / step 2 / gaps / small and large labels mixed in one mode, drawn order, at least one such mode, "
+        "carried by int64 / int32 / uint16 / uint32 / uint64 / float64 (|label| <= 2^53) arrays, C / F / strided, or nested lists of "
+        "Python ints / floats: labels are names, the model may not depend on their size, sign, spacing or storage); y families gauss/smallint/const/zero/explicit, scale 10^{0,+-3}; ranks r 2..5,12,50; "
         "orders 1 and 2; noise in {0,1e-10,1e-3,0.1} or rel_noise through the class; the `seed` argument is a duck-typed generator "
         "whose normal() returns values we control (uniform/clipped normal/+-3/all +3, modulus <= 3) or an int. Oracle = independent "
         "recomputation (math.fsum) of the mean, conditional means and pair terms, the noise-free core pattern built from it and "
@@ -33,8 +36,8 @@ RULE = ("Hypothesis draws sample sets over d 2..4(5) modes with 1..4(5) index va
         "on a drawn sample of 300 multi-indices when the domain exceeds 600. History in both order-2 subs: the fitted object is "
         "asked again for cores with another rank r2 in {2,3,4,8,50}: shape, rank bound r2, values (cap not binding), f0/f1 unchanged. "
         "Spelling / dtype of the data arguments (all subs): y_trn as float64 / float32 / float16 / int64 / int32 ndarray (also "
-        "non-contiguous views), list of Python floats / ints; I_trn as int64 / int32 / uint8 ndarray (also Fortran-ordered, "
-        "non-contiguous) or nested list; functional variant X_trn float64 / float32 (C, F, strided) or nested list, y_trn as above. "
+        "non-contiguous views), list of Python floats / ints; I_trn as int64 / int32 / uint8 / uint32 / float64 ndarray (also "
+        "Fortran-ordered, non-contiguous) or nested list of ints / floats (the storages of family `big` in addition); functional variant X_trn float64 / float32 (C, F, strided) or nested list, y_trn as above. "
         "The reference is computed in binary64 from the values the argument denotes (float(v) per element, exact), with the "
         "tolerances of the float64 spelling. y family `offset`: 1000 / -250 / 1e6 / 100 + 0.1 N(0,1) (offset >> variation), also as "
         "the additive function of the full-grid sub. "
@@ -65,6 +68,9 @@ TOLERANCES = ("f0: 2(m+4) eps mean|y|; f1/f2: the same for the conditional mean 
               "into the range part (<= dG/(eps lambda_max) ~ 1e3; observed <= 2 without the factor); truncated functional cores: "
               "e||A|| + floor_eigh")
 ASSUMPTIONS = ["d >= 2, r >= 2 (cores_1 writes column 1 of every core), noise >= 0, integer index values",
+               "index values are integers in [-2^63, 2^63) held exactly by the storage that carries them (float64 storage: |value| <= 2^53; "
+               "the unchanged library accepts float64 / unsigned index arrays and lists of floats and keys its tables by them); they "
+               "are labels: equal labels denote the same index, different labels different indices, whatever their distance",
                "int seeds: |standard normal draw| <= 40 (NumPy's ziggurat cannot exceed ~14 in binary64)",
                "additive reproduction is claimed for balanced full grids only (every grid point equally often)",
                "functional variant: lamb >= 0 (None is rejected by the library), points inside the box, box offset ratio "
@@ -151,11 +157,13 @@ def data_fields(draw, tier, layouts, n=None, m_hi=None, m_many=False):
             "rep": draw(st.integers(2, 3)),
             "as_list": draw(st.integers(0, 3)) == 0,
             "ydt": draw(st.sampled_from(YDT)), "idt": draw(st.sampled_from(IDT))}
-    lk = draw(st.sampled_from(["affine", "affine", "identity", "drawn", "drawn"]))
+    lk = draw(st.sampled_from(["affine", "affine", "identity", "drawn", "drawn", "big", "big"]))
     if lk == "affine":
         case["labels"] = [[2 * i + 3 for i in range(k)] for k in n]
     elif lk == "identity":
         case["labels"] = [list(range(k)) for k in n]
+    elif lk == "big":                                   # labels of large modulus; the storage is drawn with them (must hold them)
+        case["labels"], case["idt"] = draw(big_labels(n))
     else:
         case["labels"] = [draw(st.lists(st.integers(-9, 40), min_size=k, max_size=k, unique=True)) for k in n]
     case["labkind"] = lk
@@ -176,7 +184,52 @@ def data_fields(draw, tier, layouts, n=None, m_hi=None, m_many=False):
 # of an integer dtype, or a list of Python numbers, denotes exactly representable doubles; the reference is computed in
 # binary64 from those doubles (float(v) of every element is exact), with the tolerances of the float64 spelling.
 YDT = ["f8", "f8", "f4", "f4", "f4", "f2", "i8", "i4", "list", "list", "list_int", "f8_strided", "f4_strided"]
-IDT = ["i8", "i8", "i4", "u1", "list", "list", "i8_forder", "i4_strided"]
+IDT = ["i8", "i8", "i4", "u1", "list", "list", "i8_forder", "i4_strided", "f8", "listf", "u4"]
+
+# ---- index LABELS are names of the observed index values, not quantities: the model of a data set does not depend on how large
+# they are, on their sign, on gaps between them or on the storage that carries them.  Label family `big`: per mode either small
+# labels or base + offsets with |base| in 65520 .. 2^63 - 16 (positive and negative; contiguous / step 2 / drawn gaps in 0..15 /
+# a mix of small and large labels in ONE mode; listed in drawn order), at least one mode large, carried by a drawn storage that
+# holds them exactly: int64, int32, uint16, uint32, uint64, float64 (|label| <= 2^53), nested list of Python ints / floats,
+# Fortran-ordered / strided views.
+I_RANGE = {"i8": (-2 ** 63, 2 ** 63 - 1), "i4": (-2 ** 31, 2 ** 31 - 1), "u1": (0, 255), "u2": (0, 2 ** 16 - 1), "u4": (0, 2 ** 32 - 1),
+           "u8": (0, 2 ** 63 - 1),              # the reference keeps the labels in int64
+           "f8": (-2 ** 53, 2 ** 53), "list": (-2 ** 63, 2 ** 63 - 1), "listf": (-2 ** 53, 2 ** 53)}
+BIG_IDT = ["i8", "i8", "i4", "i4", "u2", "u4", "u8", "f8", "f8", "list", "listf", "i8_forder", "i4_strided", "f8_strided", "u8_strided", "f8_forder"]
+BIG_SPAN = 15
+BIG_BASES = [65520, 99990, 100000, 100000, 2 ** 17, 2 ** 20, 2 ** 20, 10 ** 6, 10 ** 9, 2 ** 31 - 16, 2 ** 31, 2 ** 32 - 16, 2 ** 32, 2 ** 40, 10 ** 15,
+             2 ** 53 - 15, 2 ** 62, 2 ** 63 - 16,
+             -100015, -100000, -2 ** 20, -10 ** 9, -2 ** 31, -2 ** 40, -2 ** 53, -2 ** 62, -2 ** 63]
+
+
+@st.composite
+def big_labels(draw, n):
+    idt = draw(st.sampled_from(BIG_IDT))
+    lo, hi = I_RANGE[idt.split("_")[0]]
+    bases = [b for b in BIG_BASES if lo <= b and b + BIG_SPAN <= hi]
+    d = len(n)
+    large = [draw(st.integers(0, 2)) > 0 for _ in range(d)]
+    large[draw(st.integers(0, d - 1))] = True
+    labels = []
+    for k in range(d):
+        if not large[k]:
+            labels.append(draw(st.sampled_from([list(range(n[k])), [2 * i + 3 for i in range(n[k])]])))
+            continue
+        b = draw(st.sampled_from(bases))
+        how = draw(st.sampled_from(["contig", "contig", "step2", "gaps", "gaps", "mixed"]))
+        if how == "contig":
+            off = list(range(n[k]))
+        elif how == "step2":
+            off = [2 * i for i in range(n[k])]
+        else:
+            off = sorted(draw(st.lists(st.integers(0, BIG_SPAN), min_size=n[k], max_size=n[k], unique=True)))
+        lab = [b + o for o in off]
+        if how == "mixed":                              # one mode whose labels are partly small, partly large
+            lab = [(o if j % 2 == 0 else b + o) for j, o in enumerate(off)]
+        if draw(st.booleans()):
+            lab = list(draw(st.permutations(lab)))
+        labels.append(lab)
+    return labels, idt
 XDT = ["f8", "f8", "f4", "f4", "list", "f8_forder", "f4_strided"]
 
 
@@ -221,19 +274,22 @@ def spell_y(y, ydt):
 
 def spell_I(I, idt):
     """(argument handed to the library, the int64 array of the labels it denotes); uint8 needs labels in 0..255 (ours are in
-    -9..83, shifted by construction when one is negative)."""
+    -9..83, shifted by construction when one is negative; the same shift for the other unsigned storages); family `big`
+    draws the storage together with the labels so that it holds them."""
     I = np.asarray(I, dtype=np.int64)
     base = idt.split("_")[0]
-    if base == "u1" and I.size and int(I.min()) < 0:
+    if base[0] == "u" and I.size and int(I.min()) < 0:
         I = I + 9
+    lo, hi = I_RANGE[base]
+    assert not I.size or (lo <= int(I.min()) and int(I.max()) <= hi), (idt, int(I.min()), int(I.max()))
     if idt == "list":
         arg = I.tolist()
+    elif idt == "listf":                                # nested list of Python floats (exact: |label| <= 2^53)
+        arg = [[float(v) for v in row] for row in I.tolist()]
     elif base == "i8":
         arg = I.copy()
-    elif base == "i4":
-        arg = I.astype(np.int32)
-    elif base == "u1":
-        arg = I.astype(np.uint8)
+    elif base in ("i4", "u1", "u2", "u4", "u8", "f8"):
+        arg = I.astype({"i4": np.int32, "u1": np.uint8, "u2": np.uint16, "u4": np.uint32, "u8": np.uint64, "f8": np.float64}[base])
     else:
         raise ValueError(idt)
     if idt.endswith("_forder"):
@@ -500,12 +556,25 @@ def call_fields(draw, order):
 LAYOUTS = ["grid", "grid_rep", "grid_plus", "sparse", "sparse", "sparse", "dups", "dups", "single", "explicit"]
 
 
+def big_label_classes(ctx, dom):
+    """Histogram classes of the observed label values (evidence only)."""
+    mx = max(max(abs(x) for x in dm) for dm in dom)
+    ctx.label("max|label|:" + ("<1e5" if mx < 10 ** 5 else ("<2^31" if mx < 2 ** 31 else ("<=2^53" if mx <= 2 ** 53 else ">2^53"))))
+    if any(x < -9 for dm in dom for x in dm):
+        ctx.label("labels_large_negative")
+    if any(abs(a - b) * 10 ** 5 <= max(abs(a), abs(b)) for dm in dom for a, b in zip(dm, dm[1:])):
+        ctx.label("labels_closer_than_1e-5_relative")
+    if any(len(dm) > 1 and dm[-1] - dm[0] > 2 ** 16 for dm in dom):
+        ctx.label("small_and_large_labels_in_one_mode")
+
+
 def data_labels(ctx, case, ref, I):
     d = len(ref["n"])
     ctx.label("layout:" + case["layout"], "labels:" + case["labkind"], "y:" + case["yfam"], f"d={d}", f"r={case['r']}",
               "gen:" + case["gen"], "route:" + case["route"], f"scale=1e{case['scale10']}")
     idt, ydt = case_dtypes(case)
     ctx.label("I_trn:" + idt, "y_trn:" + ydt)
+    big_label_classes(ctx, ref["dom"])
     if case["route"] != "class_rel":
         ctx.label(f"noise={case['noise']:g}")
     if 1 in ref["n"]:
@@ -706,11 +775,13 @@ def additive_cases(draw, tier):
     if case["gfam"] == "explicit":
         case["g"] = [[draw(st.one_of(st.integers(-3, 3).map(float), gen.reals(-4, 4))) for _ in range(k)] for k in n]
         case["c"] = draw(gen.reals(-4, 4))
-    lk = draw(st.sampled_from(["affine", "identity", "drawn"]))
+    lk = draw(st.sampled_from(["affine", "identity", "drawn", "big", "big"]))
     if lk == "affine":
         case["labels"] = [[2 * i + 3 for i in range(k)] for k in n]
     elif lk == "identity":
         case["labels"] = [list(range(k)) for k in n]
+    elif lk == "big":
+        case["labels"], case["idt"] = draw(big_labels(n))
     else:
         case["labels"] = [draw(st.lists(st.integers(-9, 40), min_size=k, max_size=k, unique=True)) for k in n]
     case["labkind"] = lk
@@ -761,7 +832,8 @@ def prop_additive(case, ctx):
 
     ref = ref_model(I, y, order)
     ctx.label(f"order={order}", f"d={d}", f"rep={case['rep']}", "g:" + case["gfam"], f"r={r}", "gen:" + case["gen"], f"noise={case['noise']:g}",
-              "I_trn:" + idt, "y_trn:" + ydt, "cast_exact" if cast == 0 else "cast_rounds")
+              "I_trn:" + idt, "y_trn:" + ydt, "cast_exact" if cast == 0 else "cast_rounds", "labels:" + case["labkind"])
+    big_label_classes(ctx, ref["dom"])
     ctx.nontrivial(r > 2 or order == 2 or case["rep"] > 1)
     Y, A, noise, B = run_anova(ctx, case, Iarg, yarg, y, order)
     why = oracle.wellformed(Y, n)
@@ -1160,6 +1232,8 @@ def history_cases(draw, tier):
             ds = draw(data_fields(tier, HIST_LAYOUTS, n=n, m_hi=40 if big else 24))
             if kind == "same_labels":
                 ds["labels"] = sets[0]["labels"]; ds["labkind"] = sets[0]["labkind"]
+                if ds["labkind"] == "big":           # the storage drawn with the labels holds them
+                    ds["idt"] = sets[0]["idt"]
             ds["derived"] = kind
         sets.append(ds)
     rs = [2, 2, 3, 4, 5, 12] if order == 1 else [2, 3, 4, 8, 50, 50]
@@ -1338,6 +1412,7 @@ def _prop_history(case, ctx, tmp):
             rebuilds += 1
             trail.append(f"{kind}({j})")
             nn = refs[j]["n"]
+            big_label_classes(ctx, refs[j]["dom"])
             ctx.label("rebuild:" + ("same_data" if j == cur else sets[j].get("derived", "set0")),
                       "rebuild:other_d" if len(nn) != len(prev_n) else ("rebuild:same_sizes" if nn == prev_n else "rebuild:other_sizes"),
                       "rebuild_after_cores_or_arr" if cores_since_start else "rebuild_before_any_cores")
